@@ -7,8 +7,8 @@ package main
 //   conc    free-running scenarios: several concurrent Poison/Stop callers, senders
 //           that keep sending, self-poison from inside Receive, parent shutdown
 //           racing a direct stop of the child, unknown/stopped/nil targets
-//   known   directed reproduction of the open finding "stop request issued while
-//           the target is inside its Stopped handler"
+//   directed  the history of the (repaired) finding "stop request issued while the
+//           target is inside its Stopped handler": an ordinary case that must hold
 
 import (
 	"context"
@@ -21,7 +21,6 @@ import (
 	"github.com/anthdm/hollywood/actor"
 )
 
-const knownC07Window = "C07-stop-request-during-stopped-handler"
 
 func init() {
 	register(&prop{
@@ -32,7 +31,7 @@ func init() {
 		assumptions: []string{
 			"'eventually done' is decided on state: once ActorStoppedEvent has been seen and the target is unregistered an open context can never be closed; a bare watchdog expiry is inconclusive",
 			"with several stop requests for one actor the drain guarantee ('every message sent before the Poison call has been handled') is judged only for scenarios with a single stop request: a concurrent Stop, or an earlier Poison that wins, legitimately ends the actor before a later caller's messages are handled",
-			"open finding " + knownC07Window + " (see known_findings.json): a request that finds the target already unregistered but still inside its Stopped handler gets a context that is done at once",
+			"the history of the repaired finding C07-8549780 (request while the target is inside its Stopped handler) is replayed as a directed case on every run",
 		},
 		modes: func(tier string, seed int64) []modeSpec {
 			n, m := 700, 1600
@@ -43,7 +42,7 @@ func init() {
 				{name: "script", n: n, perChild: n / 16, timeout: 20 * time.Minute},
 				{name: "conc", n: m, perChild: m / 16, timeout: 20 * time.Minute, env: []string{"VERIF_HOOK=chaos", "VERIF_HOOK_PROB=30", "VERIF_HOOK_MAXUS=100"}},
 				{name: "conc-plain", n: m / 2, perChild: m / 32, timeout: 20 * time.Minute},
-				{name: "known", n: 4, perChild: 4, timeout: 5 * time.Minute},
+				{name: "directed", n: 4, perChild: 4, timeout: 5 * time.Minute},
 			}
 		},
 		run: func(c *caseCtx) caseResult {
@@ -55,7 +54,7 @@ func init() {
 					out.res.Sig = ""
 				}
 				return out.res
-			case "known":
+			case "directed":
 				return c07Known(c)
 			default:
 				return c07Conc(c)
@@ -396,16 +395,10 @@ func c07Conc(c *caseCtx) (res caseResult) {
 		}
 		res.count("contexts_done", 1)
 		if !cr.stoppedDone {
-			if cr.doneAtReturn {
-				// the request found the target already unregistered but still inside its Stopped handler: open finding
-				res.count("known_window_hits", 1)
-				if res.Verdict == vHeld || res.Verdict == "" {
-					res.Verdict = vKnown
-					res.Known = knownC07Window
-				}
-			} else {
-				res.violate("caller %d (%s): context became done before the target had handled Stopped", k, cr.kind)
-			}
+			res.violate("caller %d (%s): context became done before the target had handled Stopped (already done when the call returned: %v)", k, cr.kind, cr.doneAtReturn)
+		}
+		if cr.doneAtReturn {
+			res.count("requests_answered_at_once", 1)
 		}
 		if cr.registered {
 			res.violate("caller %d (%s): context became done while the target was still registered", k, cr.kind)
@@ -533,8 +526,7 @@ func c07Known(c *caseCtx) (res caseResult) {
 		return
 	}
 	if doneEarly {
-		res.Verdict = vKnown
-		res.Known = knownC07Window
+		res.violate("a stop request issued while the target is inside its Stopped handler returned a context that is already done, although Stopped has not been handled yet")
 	}
 	return
 }
